@@ -351,6 +351,12 @@ def check_general(n, res):
             if norm(own_ssa_to_linear(own, n)) != norm(path):
                 bad.append("harness converters inconsistent")
             st, rem = interp_linear(path, n)
+            if len(rem) == 1:
+                # complete path: N may be left to be inferred
+                if norm(pb.ssa_to_linear(own)) != norm(path):
+                    bad.append(("ssa_to_linear with inferred N",))
+                if norm(pb.linear_to_ssa(path)) != own:
+                    bad.append(("linear_to_ssa with inferred N",))
             for kw in ({"path": path}, {"ssa_path": own}):
                 t = ctg.ContractionTree.from_path(
                     inputs, (), sd, autocomplete=True, optimize="greedy",
